@@ -15,7 +15,7 @@ from ..facts import callee_name
 from ..common import trait_impls, short, coroutine_of, SOCKET_TYPES, rfc_compatible, strip_casts, len_base
 from .. import pathq
 from ..oblig import LenFacts, norm_base
-from . import tables
+from . import tables, hs
 
 EXPLANATION = __doc__
 NOT_DECIDED = "liveness of the happy path (every well-formed peer is admitted); freshness/uniqueness of generated identities"
@@ -183,7 +183,8 @@ def version_decision(p):
 
 
 def check_version(f, rep):
-    nv = [b for b in f.bodies if b.path.endswith("util::negotiate_version")]
+    nv = [b for b in [f.body(hs.anchors(f).get("negotiate"))] if b is not None]
+    rep.floor("R04.1", "version negotiation function (found by signature)", len(nv), 1)
     for b in nv:
         for p in pathq.paths(f, b):
             if p.end != "return" or pathq.ret_kind(p) != "Ok":
@@ -218,7 +219,7 @@ def check_version(f, rep):
                       "greeting accepted only with signature bytes [0]=0xFF and [9]=0x7F (this Ok path requires %s)" % {k: hex(v) for k, v in sig.items()}, b.loc())
             rep.check(mech, "R04.1", "R04.1|greeting|mechanism", "greeting accepted only with a known mechanism (try_from decided Ok)", b.loc())
         rep.floor("R04.1", "Ok exits of the greeting parser", n, 1)
-    ge = [b for b in f.bodies if b.path.endswith("util::greet_exchange::{closure#0}")]
+    ge = [b for b in [hs.co(f, "greet")] if b is not None]
     rep.floor("R04.1", "greeting exchange", len(ge), 1)
     for b in ge:
         n = 0
@@ -239,7 +240,7 @@ def check_version(f, rep):
 
 
 def check_ready(f, rep):
-    re_ = [b for b in f.bodies if b.path.endswith("util::ready_exchange::{closure#0}")]
+    re_ = [b for b in [hs.co(f, "ready")] if b is not None]
     rep.floor("R04.1", "READY exchange", len(re_), 1)
     for b in re_:
         n = 0
@@ -324,7 +325,8 @@ def check_gate(f, rep):
         for bb, t, fn in b.calls():
             if fn and fn["name"] == "peer_connected" and (fn.get("trait") or "").endswith("MultiPeerBackend"):
                 callers.setdefault(b.path, []).append(bb)
-    rep.check(list(callers) == [p for p in callers if p.endswith("util::peer_connected::{closure#0}")] and len(callers) == 1,
+    drv = hs.co(f, "driver")
+    rep.check(drv is not None and list(callers) == [drv.path],
               "R04.1", "R04.1|registration-callers", "MultiPeerBackend::peer_connected (registration) is called only by the handshake driver: %s" % sorted(callers))
     for path in callers:
         b = f.body(path)
@@ -334,16 +336,17 @@ def check_gate(f, rep):
                 if not (ev.fn and (ev.fn.get("trait") or "").endswith("MultiPeerBackend")):
                     continue
                 n += 1
-                g = pathq.ok_decided(p, lambda x: pathq.is_poll_of(x, "greet_exchange"), ev.ncond)
-                r = pathq.ok_decided(p, lambda x: pathq.is_poll_of(x, "ready_exchange"), ev.ncond)
+                g = pathq.ok_decided(p, lambda x: hs.is_poll_of_role(f, x, "greet"), ev.ncond)
+                r = pathq.ok_decided(p, lambda x: hs.is_poll_of_role(f, x, "ready"), ev.ncond)
                 rep.check(g, "R04.1", "R04.1|gate|greeting-ok", "registration only after the greeting exchange was decided Ok", b.loc(ev.bb))
                 rep.check(r, "R04.1", "R04.1|gate|ready-ok", "registration only after the READY exchange was decided Ok", b.loc(ev.bb))
                 # the registered identity is the READY result
                 idarg = ev.args[1] if len(ev.args) > 1 else None
-                from_ready = idarg is not None and pathq.mentions_call(idarg, lambda x: pathq.is_poll_of(x, "ready_exchange")) is not None
+                from_ready = idarg is not None and pathq.mentions_call(idarg, lambda x: hs.is_poll_of_role(f, x, "ready")) is not None
                 rep.check(from_ready, "R04.1", "R04.1|gate|identity-provenance", "the peer is registered under the identity the READY exchange returned", b.loc(ev.bb))
-                order = [short(e.name) for _, e in pathq.calls(p, "greet_exchange", "ready_exchange", upto=i)]
-                rep.check(order[:2] == ["greet_exchange", "ready_exchange"], "R04.1", "R04.1|gate|order", "greeting exchange precedes READY exchange precedes registration (%s)" % order, b.loc(ev.bb))
+                roles = {hs.anchors(f).get("greet"): "greeting", hs.anchors(f).get("ready"): "ready"}
+                order = [roles[e.name] for _, e in pathq.calls(p, upto=i) if e.name in roles]
+                rep.check(order[:2] == ["greeting", "ready"], "R04.1", "R04.1|gate|order", "greeting exchange precedes READY exchange precedes registration (%s)" % order, b.loc(ev.bb))
         rep.floor("R04.1", "registration events on driver paths", n, 1)
         # no leak of the rejected connection
         leaks = [fn["name"] for bb, t, fn in b.calls() if fn and fn["name"] in ("forget", "leak", "into_raw")]
